@@ -167,6 +167,65 @@ def generate_outconv(repo: Path, outdir: Path) -> dict:
     return dict(outconv_changed=changed, out_sites=len(sites), get_output_checks=len(checks))
 
 
+# ---------------------------------------------------------------------------------------------
+# C08: which numpy normalisation stands between the user's array and a native ISCARRAY guard
+
+NORM_SITES = [('labeled', '_as_labeled', 'labeled'), ('labeled', '_convert_labeled', 'labeled'),
+              ('histogram', 'fullhistogram', 'img'), ('polygon', 'convexhull', 'bwimg')]
+
+
+def extract_normalisers(repo: Path):
+    out = []
+    for mod, fname, param in NORM_SITES:
+        tree = ast.parse((repo / 'mahotas' / (mod + '.py')).read_text())
+        fn = next((n for n in tree.body if isinstance(n, ast.FunctionDef) and n.name == fname), None)
+        if fn is None:
+            raise TranslationError(f'{mod}.{fname} not found')
+        found = []
+        for node in ast.walk(fn):
+            if not isinstance(node, ast.Call):
+                continue
+            call = node
+            name = getattr(call.func, 'attr', None)
+            if name not in ('require', 'array', 'ascontiguousarray', 'asanyarray', 'asarray'):
+                continue
+            if not (call.args and isinstance(call.args[0], ast.Name) and call.args[0].id == param):
+                continue
+            kw = {k.arg: k.value for k in call.keywords}
+            if name == 'require':
+                r = kw.get('requirements', call.args[2] if len(call.args) > 2 else None)
+                if isinstance(r, ast.Constant) and isinstance(r.value, str):
+                    letters = r.value
+                elif isinstance(r, (ast.List, ast.Tuple)):
+                    letters = ''.join(e.value[0] for e in r.elts)
+                else:
+                    raise TranslationError(f'{mod}.{fname}: np.require requirements not understood')
+                found.append('require:' + ''.join(c for c in 'CAW' if c in letters.upper()))
+            elif name == 'array':
+                o = kw.get('order')
+                found.append('array:' + (o.value if isinstance(o, ast.Constant) else 'K'))
+            elif name == 'ascontiguousarray':
+                found.append('ascontiguousarray')
+            else:
+                found.append('asanyarray')
+        if not found:
+            raise TranslationError(f'{mod}.{fname}: no normalisation of `{param}` found')
+        for k, f in enumerate(found):
+            out.append((f'{mod}.{fname}#{k}', f))
+    return out
+
+
+def generate_normalisers(repo: Path, outdir: Path) -> dict:
+    sites = extract_normalisers(repo)
+    s = ['/- GENERATED by translator/tables.py (generate_normalisers) from the current /repo sources. Do not edit. -/',
+         'namespace Mahotas.Generated', '',
+         '/-- (wrapper#occurrence, numpy normalisation applied to the array argument before a native ISCARRAY guard) -/',
+         'def normSites : List (String × String) := [' + ', '.join(f'("{a}", "{b}")' for a, b in sites) + ']',
+         '', 'end Mahotas.Generated', '']
+    changed = _write_if_changed(outdir / 'Normalise.lean', '\n'.join(s))
+    return dict(normalise_changed=changed, norm_sites=len(sites))
+
+
 def lean_list(xs):
     return '[' + ', '.join(str(x) for x in xs) + ']'
 
@@ -190,6 +249,7 @@ def generate(repo: Path, outdir: Path) -> dict:
     changed = _write_if_changed(outdir / 'Tables.lean', '\n'.join(s))
     res = dict(tables_changed=changed, modes=len(py), translate_sizes=len(ts))
     res.update(generate_outconv(repo, outdir))      # C09
+    res.update(generate_normalisers(repo, outdir))  # C08
     return res
 
 
